@@ -27,6 +27,22 @@ Qed.
 Lemma mask_keys_nodup : forall m, NoDup (mask_keys m).
 Proof. intros m. exact (filter_seq_nodup _ mask_bits). Qed.
 
+Lemma filter_seq_iff : forall (f : nat -> bool) b i,
+  In i (map Z.of_nat (filter f (seq 0 b))) <-> 0 <= i < Z.of_nat b /\ f (Z.to_nat i) = true.
+Proof.
+  intros f b i. rewrite in_map_iff. split.
+  - intros (n & E & Hn). apply filter_In in Hn. destruct Hn as [Hs Hb]. apply in_seq in Hs. subst i.
+    rewrite Nat2Z.id. split; [lia | exact Hb].
+  - intros (Hr & Hb). exists (Z.to_nat i). split; [lia|]. apply filter_In. split; [apply in_seq; lia | exact Hb].
+Qed.
+
+Lemma mask_keys_testbit : forall m i,
+  In i (mask_keys m) <-> 0 <= i < Z.of_nat mask_bits /\ N.testbit m (N.of_nat (Z.to_nat i)) = true.
+Proof. intros m i. exact (filter_seq_iff (fun n => N.testbit m (N.of_nat n)) mask_bits i). Qed.
+
+Lemma mask_bits_eq : Z.of_nat mask_bits = Consts.CosiMaskBits.
+Proof. reflexivity. Qed.
+
 #[global] Opaque mask_keys.
 
 Section CosiProofs.
@@ -318,6 +334,164 @@ Proof.
   destruct (commit_loop l (ir :: rs) 0 0%N) as [[p mask]| |] eqn:El; cbn [bind] in Hc; try discriminate.
   inversion Hc; subst. cbn [c_commits c_s c_r fst]. destruct (commit_loop_sum _ _ _ _ _ El) as [E HF].
   repeat split; [|exact HF]. rewrite E. cg_ring.
+Qed.
+
+(* ---- the mask is the index set of the commitments map ---------------------------- *)
+
+Lemma mark_testbit : forall mask i mask' n, mark mask i = Ok mask' ->
+  0 <= i < Consts.CosiMaskBits /\ N.testbit mask' n = xorb (N.testbit mask n) (Z.to_N i =? n)%N.
+Proof.
+  intros mask i mask' n Hm. unfold mark in Hm.
+  destruct ((Consts.CosiMaskBits <=? i) || (i <? 0)) eqn:Er; [discriminate|].
+  apply orb_false_iff in Er. destruct Er as [E1 E2]. apply Z.leb_gt in E1. apply Z.ltb_ge in E2.
+  injection Hm as Hm. subst mask'. split; [lia|].
+  rewrite N.lxor_spec. change (N.pos (Pos.shiftl 1 (Z.to_N i))) with (N.shiftl 1 (Z.to_N i)).
+  rewrite N.shiftl_1_l, N.pow2_bits_eqb. reflexivity.
+Qed.
+
+Definition has_index (n : N) (idx : list Z) : bool := existsb (fun i => (Z.to_N i =? n)%N) idx.
+
+Lemma commit_loop_bits : forall rs p mask p' mask',
+  commit_loop l rs p mask = Ok (p', mask') -> NoDup (map fst rs) ->
+  forall n, N.testbit mask' n = xorb (N.testbit mask n) (has_index n (map fst rs)).
+Proof.
+  intros rs. induction rs as [|[i r] rs IH]; intros p mask p' mask' Hc Hnd n.
+  - cbn in Hc. inversion Hc; subst. cbn. rewrite xorb_false_r. reflexivity.
+  - pose proof Hc as Hc0. cbn [commit_loop] in Hc.
+    destruct (negb (point_ok l r)); [discriminate|].
+    destruct (mark mask i) as [mask1| |] eqn:Em; cbn [bind] in Hc; try discriminate.
+    destruct (mark_testbit _ _ _ n Em) as [Hi Hb].
+    cbn [map fst] in Hnd. inversion Hnd as [|? ? Hni Hnd']; subst.
+    rewrite (IH _ _ _ _ Hc Hnd' n), Hb. unfold has_index. cbn [map fst existsb].
+    destruct (Z.to_N i =? n)%N eqn:Ein.
+    + (* n is the head index: it cannot occur in the tail *)
+      assert (Et : existsb (fun j => (Z.to_N j =? n)%N) (map fst rs) = false).
+      { destruct (existsb _ (map fst rs)) eqn:Ee; [|reflexivity]. exfalso.
+        apply existsb_exists in Ee. destruct Ee as (j & Hj & Ejn).
+        apply N.eqb_eq in Ein. apply N.eqb_eq in Ejn.
+        destruct (commit_loop_sum _ _ _ _ _ Hc) as [_ HF]. rewrite Forall_forall in HF.
+        apply in_map_iff in Hj. destruct Hj as ([j' r'] & Ej & Hin). cbn [fst] in Ej. subst j'.
+        destruct (HF _ Hin) as [_ Hjr]. cbn [fst] in Hjr.
+        assert (i = j) by (apply Z2N.inj; lia). subst j.
+        apply Hni. apply in_map_iff. exists (i, r'). split; [reflexivity | exact Hin]. }
+      rewrite Et. destruct (N.testbit mask n); reflexivity.
+    + destruct (N.testbit mask n), (existsb _ (map fst rs)); reflexivity.
+Qed.
+
+Lemma has_index_iff : forall n idx, has_index n idx = true <-> exists j, In j idx /\ Z.to_N j = n.
+Proof.
+  intros n idx. unfold has_index. rewrite existsb_exists. split; intros (j & Hj & E); exists j; split; try assumption.
+  - apply N.eqb_eq; exact E.
+  - apply N.eqb_eq; exact E.
+Qed.
+
+Lemma has_index_perm : forall n a b, Permutation a b -> has_index n a = has_index n b.
+Proof.
+  intros n a b HP. unfold has_index. induction HP; cbn [existsb].
+  - reflexivity.
+  - rewrite IHHP. reflexivity.
+  - destruct (Z.to_N y =? n)%N, (Z.to_N x =? n)%N; reflexivity.
+  - congruence.
+Qed.
+
+Definition commitment_ok (ir : Z * Z) : Prop :=
+  point_ok l (snd ir) = true /\ 0 <= fst ir < Consts.CosiMaskBits.
+
+Lemma commit_loop_total : forall rs p mask, Forall commitment_ok rs ->
+  exists p' mask', commit_loop l rs p mask = Ok (p', mask').
+Proof.
+  intros rs. induction rs as [|[i r] rs IH]; intros p mask HF.
+  - exists p, mask. reflexivity.
+  - inversion HF as [|? ? [Hp Hi] HF']; subst. cbn [fst snd] in *. cbn [commit_loop]. rewrite Hp. cbn [negb].
+    unfold mark. assert (E : (Consts.CosiMaskBits <=? i) || (i <? 0) = false).
+    { apply orb_false_iff. split; [apply Z.leb_gt | apply Z.ltb_ge]; lia. }
+    rewrite E. cbn [bind]. apply IH. exact HF'.
+Qed.
+
+(* bit i of the mask is set iff i is a key of the commitments map *)
+Lemma commitment_mask : forall rs c, aggregate_commitment l rs = Ok c -> NoDup (map fst rs) ->
+  (forall n, N.testbit (c_mask c) n = has_index n (map fst rs)) /\
+  (forall i, In i (mask_keys (c_mask c)) <-> In i (map fst rs)) /\
+  length (mask_keys (c_mask c)) = length rs.
+Proof.
+  intros rs c Hc Hnd. pose proof (commitment_sum rs c Hc) as (_ & _ & _ & HF).
+  unfold aggregate_commitment in Hc. destruct rs as [|ir rs]; [discriminate|].
+  destruct (commit_loop l (ir :: rs) 0 0%N) as [[p mask]| |] eqn:El; cbn [bind] in Hc; try discriminate.
+  inversion Hc; subst. cbn [c_mask snd].
+  assert (Hbits : forall n, N.testbit mask n = has_index n (map fst (ir :: rs))).
+  { intros n. rewrite (commit_loop_bits _ _ _ _ _ El Hnd n), N.bits_0. apply xorb_false_l. }
+  assert (Hset : forall i, In i (mask_keys mask) <-> In i (map fst (ir :: rs))).
+  { intros i. rewrite mask_keys_testbit, mask_bits_eq, Z_nat_N, Hbits, has_index_iff. split.
+    - intros (Hr & j & Hj & E). rewrite Forall_forall in HF. apply in_map_iff in Hj.
+      destruct Hj as ([j' r'] & Ej & Hin). cbn [fst] in Ej. subst j'.
+      destruct (HF _ Hin) as [_ Hjr]. cbn [fst] in Hjr.
+      assert (j = i) by (apply Z2N.inj; lia). subst j. apply in_map_iff. exists (i, r'). split; [reflexivity | exact Hin].
+    - intros Hi. pose proof Hi as Hi'. apply in_map_iff in Hi'. destruct Hi' as ([i' r'] & Ei & Hin). cbn [fst] in Ei. subst i'.
+      rewrite Forall_forall in HF. destruct (HF _ Hin) as [_ Hr]. cbn [fst] in Hr.
+      split; [exact Hr|]. exists i. split; [exact Hi | reflexivity]. }
+  split; [exact Hbits|]. split; [exact Hset|].
+  rewrite <- (map_length fst (ir :: rs)). apply Permutation_length.
+  apply NoDup_Permutation; [apply mask_keys_nodup | exact Hnd | exact Hset].
+Qed.
+
+(* map iteration order is irrelevant *)
+Lemma commitment_perm : forall rs rs' c, aggregate_commitment l rs = Ok c -> NoDup (map fst rs) ->
+  Permutation rs rs' ->
+  exists c', aggregate_commitment l rs' = Ok c' /\ c_mask c' = c_mask c /\ cg l (c_r c') (c_r c).
+Proof.
+  intros rs rs' c Hc Hnd HP.
+  pose proof (commitment_sum rs c Hc) as (_ & _ & Hr & HF).
+  assert (HF' : Forall commitment_ok rs') by (eapply Permutation_Forall; [exact HP | exact HF]).
+  assert (Hnd' : NoDup (map fst rs')) by (eapply Permutation_NoDup; [apply Permutation_map; exact HP | exact Hnd]).
+  destruct (commit_loop_total rs' 0 0%N HF') as (p' & mask' & El').
+  assert (Hne : rs' <> []).
+  { intro E. subst rs'. apply Permutation_sym, Permutation_nil in HP. subst rs. discriminate. }
+  assert (Hc' : aggregate_commitment l rs' = Ok (mkCosi p' 0 mask' rs')).
+  { unfold aggregate_commitment. destruct rs' as [|x xs]; [congruence|]. rewrite El'. reflexivity. }
+  exists (mkCosi p' 0 mask' rs'). split; [exact Hc'|]. cbn [c_mask c_r]. split.
+  - apply N.bits_inj. intros n.
+    destruct (commitment_mask rs c Hc Hnd) as (Hb & _). destruct (commitment_mask rs' _ Hc' Hnd') as (Hb' & _).
+    cbn [c_mask] in Hb'. rewrite Hb, Hb'. symmetry. apply has_index_perm. apply Permutation_map. exact HP.
+  - pose proof (commitment_sum rs' _ Hc') as (_ & _ & Hr' & _). cbn [c_r] in Hr'.
+    rewrite Hr, Hr'. rewrite (zsum_perm _ _ (Permutation_map snd HP)). reflexivity.
+Qed.
+
+(* hence the hypothesis of [complete] on R holds after CosiAggregateCommitment *)
+Lemma commitment_wf : forall rs c, aggregate_commitment l rs = Ok c -> NoDup (map fst rs) ->
+  cg l (c_r c) (zsum (map (commit_of c) (mask_keys (c_mask c)))).
+Proof.
+  intros rs c Hc Hnd. pose proof (commitment_sum rs c Hc) as (Hcm & _ & Hr & _).
+  destruct (commitment_mask rs c Hc Hnd) as (_ & Hset & _).
+  assert (HP : Permutation (mask_keys (c_mask c)) (map fst rs))
+    by (apply NoDup_Permutation; [apply mask_keys_nodup | exact Hnd | exact Hset]).
+  rewrite (zsum_perm _ _ (Permutation_map (commit_of c) HP)), map_map, Hr.
+  apply cg_eq. f_equal. apply map_ext_in. intros [i r] Hin. cbn [fst snd].
+  unfold commit_of. rewrite Hcm, (assoc_in_nodup rs i r Hnd Hin). reflexivity.
+Qed.
+
+(* ---- when the non-identity side conditions fail ------------------------------------- *)
+
+Lemma sum_identity_iff : forall xs, 0 < l -> (point_ok l (fsum l xs) = false <-> cg l (zsum xs) 0).
+Proof.
+  intros xs Hl. pose proof (fsum_range l xs Hl) as Hr. split.
+  - intros Hp. assert (E : fsum l xs = 0).
+    { destruct (Z.eq_dec (fsum l xs) 0) as [E|E]; [exact E|].
+      assert (point_ok l (fsum l xs) = true) by (apply point_ok_iff; lia). congruence. }
+    rewrite <- (fsum_cg l xs), E. reflexivity.
+  - intros Hz. assert (E : fsum l xs = 0).
+    { apply (cg_small l); [exact Hr | lia |]. rewrite fsum_cg. exact Hz. }
+    rewrite E. unfold point_ok. rewrite Z.ltb_irrefl. reflexivity.
+Qed.
+
+Lemma identity_rejected : forall keys t m c A,
+  cosi_public_key l keys c = Ok A ->
+  point_ok l A = false \/ point_ok l (c_r c) = false ->
+  full_verify l enc H keys t m c = Err.
+Proof.
+  intros keys t m c A HA Hid. unfold full_verify.
+  destruct (t <=? 0); [reflexivity|]. destruct (negb _); [reflexivity|].
+  rewrite HA. cbn [bind]. unfold schnorr_verify, verify_with_challenge.
+  destruct Hid as [E|E]; rewrite E; [reflexivity|]. rewrite andb_false_r. reflexivity.
 Qed.
 
 End CosiProofs.
